@@ -18,94 +18,57 @@ open Sema
 
 /-! ### merge -/
 
-/-- `C06_merge`.  For a composite query with two or more sub-queries (or none), whose sub-results
-are well formed (ranked ids are in the sub-result's id set):
+/-- `C06_merge`.  For a composite query with ANY number of sub-queries (none, exactly one, many) whose
+sub-results are well formed (ranked ids are in the sub-result's id set; each sub-query names a point
+at most once):
 
 * the id set is the union (`_or`) / intersection (`_and`) of the sub-sets;
 * the ranked part names each point once, and names exactly the points of the id set that some
   sub-query ranked;
 * each ranked point carries `c₁ + c₂ + … + cₙ`, its contributions in sub-query order;
-* the ranked part is ordered by hybrid score, highest first. -/
+* with two or more sub-queries the ranked part is ordered by hybrid score, highest first (a single
+  sub-query is handed on as it came, `C06_merge_single`; `Shard.SearchPoints` orders the final list
+  whatever the number of sub-queries: `C06_rank_order`).
+
+The first three clauses re-establish the hypotheses, so the statement composes over query trees of any
+depth. -/
 theorem C06_merge {S : Type} (add : S → S → S) (le : S → S → Prop)
     (sorter : List (Res S) → List (Res S))
     (hperm : ∀ l, (sorter l).Perm l) (hsorted : ∀ l, (sorter l).Pairwise (fun a b => le b.hybrid a.hybrid))
-    (isOr : Bool) (subs : List (SubResult S)) (hlen : subs.length ≠ 1)
-    (hwf : ∀ s ∈ subs, ∀ r ∈ s.res, r.id ∈ s.set) :
+    (isOr : Bool) (subs : List (SubResult S))
+    (hwf : ∀ s ∈ subs, ∀ r ∈ s.res, r.id ∈ s.set) (hnd : ∀ s ∈ subs, (s.res.map (·.id)).Nodup) :
     let out := searchParallel add sorter isOr subs
     let all := (subs.map (·.res)).flatten
     (∀ id, id ∈ out.set ↔ if isOr then ∃ s ∈ subs, id ∈ s.set else subs ≠ [] ∧ ∀ s ∈ subs, id ∈ s.set) ∧
     (out.res.map (·.id)).Nodup ∧
     (∀ id, id ∈ out.res.map (·.id) ↔ id ∈ out.set ∧ id ∈ all.map (·.id)) ∧
     (∀ r ∈ out.res, some r.hybrid = sumLeft add (contribs all r.id)) ∧
-    out.res.Pairwise (fun a b => le b.hybrid a.hybrid) := by
+    (subs.length ≠ 1 → out.res.Pairwise (fun a b => le b.hybrid a.hybrid)) := by
   intro out all
-  -- the shortcut is not taken
-  have hout : out = ⟨if isOr then unionAll (subs.map (·.set)) else interAll (subs.map (·.set)),
-      sorter ((if isOr then all else all.filter (fun r => decide (r.id ∈
-        (if isOr then unionAll (subs.map (·.set)) else interAll (subs.map (·.set)))))).foldl (mergeStep add) [])⟩ := by
-    show searchParallel add sorter isOr subs = _
-    unfold searchParallel
-    cases subs with
-    | nil => rfl
-    | cons a rest =>
-      cases rest with
+  by_cases hlen : subs.length = 1
+  · obtain ⟨one, rfl⟩ : ∃ one, subs = [one] := by
+      cases subs with
       | nil => simp at hlen
-      | cons b rest2 => rfl
-  have hset : ∀ id, id ∈ out.set ↔ if isOr then ∃ s ∈ subs, id ∈ s.set else subs ≠ [] ∧ ∀ s ∈ subs, id ∈ s.set := by
-    intro id
-    rw [hout]
-    cases isOr
-    · simp only [Bool.false_eq_true, if_false, mem_interAll, ne_eq, List.map_eq_nil_iff, List.mem_map,
-        forall_exists_index, and_imp, forall_apply_eq_imp_iff₂]
-    · simp only [if_true, mem_unionAll, List.mem_map]
+      | cons a rest => cases rest with
+        | nil => exact ⟨a, rfl⟩
+        | cons b r => simp at hlen
+    have hout : out = one := rfl
+    have hall : all = one.res := by simp [all]
+    have hw := hwf one (by simp)
+    have hn := hnd one (by simp)
+    rw [hout, hall]
+    refine ⟨?_, hn, ?_, ?_, fun h => absurd rfl h⟩
+    · intro id; cases isOr <;> simp
+    · intro id
       constructor
-      · rintro ⟨_, ⟨s, hs, rfl⟩, hm⟩; exact ⟨s, hs, hm⟩
-      · rintro ⟨s, hs, hm⟩; exact ⟨_, ⟨s, hs, rfl⟩, hm⟩
-  have hallset : isOr = true → ∀ id, id ∈ all.map (·.id) → id ∈ out.set := by
-    intro hor id hid
-    rw [hset, hor]
-    simp only [if_true]
-    simp only [all, List.mem_map, List.mem_flatten] at hid
-    obtain ⟨r, ⟨l, ⟨s, hs, rfl⟩, hr⟩, rfl⟩ := hid
-    exact ⟨s, hs, hwf s hs r hr⟩
-  generalize hk : (if isOr then all else all.filter (fun r => decide (r.id ∈
-        (if isOr then unionAll (subs.map (·.set)) else interAll (subs.map (·.set)))))) = kept at hout
-  have hkept_ids : ∀ id, id ∈ kept.map (·.id) ↔ id ∈ out.set ∧ id ∈ all.map (·.id) := by
-    intro id
-    cases hor : isOr
-    · subst hk; rw [hout]; simp only [hor, Bool.false_eq_true, if_false, List.mem_map, List.mem_filter, decide_eq_true_eq]
-      constructor
-      · rintro ⟨r, ⟨hr, hm⟩, rfl⟩; exact ⟨hm, r, hr, rfl⟩
-      · rintro ⟨hm, r, hr, rfl⟩; exact ⟨r, ⟨hr, hm⟩, rfl⟩
-    · subst hk; simp only [hor, if_true]
-      exact ⟨fun h => ⟨hallset hor id h, h⟩, fun h => h.2⟩
-  have hcontrib : ∀ id, id ∈ out.set → contribs kept id = contribs all id := by
-    intro id hid
-    cases hor : isOr
-    · subst hk; simp only [hor, Bool.false_eq_true, if_false]
-      rw [contribs_filter]
-      rw [hout] at hid; simp only [hor, Bool.false_eq_true, if_false] at hid
-      simp [hid]
-    · subst hk; simp [hor]
-  obtain ⟨hnd, hmem⟩ := ids_foldl add kept [] (by simp)
-  have hres : out.res = sorter (kept.foldl (mergeStep add) []) := by rw [hout]
-  have hp := hperm (kept.foldl (mergeStep add) [])
-  refine ⟨hset, ?_, ?_, ?_, ?_⟩
-  · rw [hres]; exact ((hp.map _).nodup_iff).mpr hnd
-  · intro id
-    rw [hres, ((hp.map (·.id)).mem_iff), hmem]
-    simp only [List.map_nil, List.not_mem_nil, false_or]
-    exact hkept_ids id
-  · intro r hr
-    rw [hres] at hr
-    have hr' := hp.mem_iff.mp hr
-    have hin : r.id ∈ out.set := by
-      have : r.id ∈ kept.map (·.id) := by
-        have := (hmem r.id).mp (List.mem_map.mpr ⟨r, hr', rfl⟩)
-        simpa using this
-      exact ((hkept_ids r.id).mp this).1
-    rw [← hybridOf_of_mem hnd hr', hybridOf_merge, hcontrib r.id hin]
-  · rw [hres]; exact hsorted _
+      · intro h
+        obtain ⟨r, hr, rfl⟩ := List.mem_map.mp h
+        exact ⟨hw r hr, h⟩
+      · exact fun h => h.2
+    · intro r hr
+      rw [contribs_nodup hn hr]; rfl
+  · obtain ⟨h1, h2, h3, h4, h5⟩ := merge_many add le sorter hperm hsorted isOr subs hlen hwf
+    exact ⟨h1, h2, h3, h4, fun _ => h5⟩
 
 /-- a single sub-query is passed through untouched -/
 theorem C06_merge_single {S : Type} (add : S → S → S) (sorter : List (Res S) → List (Res S)) (isOr : Bool)
@@ -580,7 +543,7 @@ def exSubs : List (SubResult Int) :=
 
 def exSortRes (l : List (Res Int)) : List (Res Int) := isort (fun a b => cmpInt (-a.hybrid) (-b.hybrid)) l
 
-example : exSubs.length ≠ 1 ∧ ∀ s ∈ exSubs, ∀ r ∈ s.res, r.id ∈ s.set := by decide
+example : exSubs.length ≠ 1 ∧ (∀ s ∈ exSubs, ∀ r ∈ s.res, r.id ∈ s.set) ∧ ∀ s ∈ exSubs, (s.res.map (·.id)).Nodup := by decide
 
 /-- every hypothesis of `C06_merge` at once (the sorter is an insertion sort on `Int` scores) -/
 example : ((searchParallel (· + ·) exSortRes true exSubs).res.map (·.id)).Nodup := by
